@@ -71,7 +71,8 @@ PROPS = {
     },
     "C05": {
         "extra": [("mix", 3, 12)], "profile": "defer", "n_quick": 5, "n_thorough": 40, "nops": 18, "nlists": 3, "cfgs": SIX,
-        "corpus": ["defer_codes", "defer_ortho_reject", "interrupt_defer", "terminate_defer", "defer_action_sub", "defer_action_root", "throw_in_pool"],
+        "corpus": ["defer_codes", "defer_ortho_reject", "interrupt_defer", "terminate_defer", "defer_action_sub", "defer_action_root", "throw_in_pool",
+                   "defer_completion_order", "defer_completion_order_chain", "completion_ortho_defer"],
         "monitor": None,
         "relevant": M.relevant_by(M.proj(M.ALL, keep_res=True, keep_snap=True, keep_ev=True)),
         "rule": "machines with deferring states inside the documented envelope (deferred event not handled by the same "
@@ -90,7 +91,7 @@ PROPS = {
     },
     "C10": {
         "extra": [("mix", 3, 12)], "profile": "rtc", "n_quick": 5, "n_thorough": 40, "nops": 16, "nlists": 3, "cfgs": SIX,
-        "corpus": ["explicit_completion", "completion_ortho_defer"],
+        "corpus": ["explicit_completion", "completion_ortho_defer", "defer_completion_order", "defer_completion_order_chain"],
         "monitor": None,
         "relevant": M.relevant_by(M.proj(M.ALL, keep_res=True, keep_snap=True, keep_ev=True)),
         "monitor": M.mon_C04,
